@@ -98,12 +98,18 @@ fn run<G: Group>(sc: &Scenario, st: &mut RunStats) -> Vec<Violation> {
         let mut wrong = sc.wit.clone();
         wrong.blind_seed = wrong.blind_seed.wrapping_add(1);
         wrong.zero_blind.clear();
+        wrong.special_blind = None;
+        wrong.same_as_prev.clear();
         let bad = build::<G>(cfg, &wrong);
         let mut t = sc.ctx.transcript();
         let mut r0 = crate::faultrng::FaultRng::new(RngMode::Healthy(3));
         let first = guarded(|| G::prove(&mut t, &built.statement, &bad.witness, &mut r0));
         if matches!(first, Ok(Err(_))) {
             st.fault("failed_attempt_on_the_same_transcript_first");
+        } else {
+            // the "wrong" witness happened to be acceptable: that attempt consumed the transcript
+            // legitimately, so start over on an untouched one
+            t = sc.ctx.transcript();
         }
         let mut fr = crate::faultrng::FaultRng::new(sc.rng_mode.clone());
         let r = guarded(|| G::prove(&mut t, &built.statement, &built.witness, &mut fr));
@@ -187,6 +193,21 @@ fn run<G: Group>(sc: &Scenario, st: &mut RunStats) -> Vec<Violation> {
                 let r = verify_one::<G>(&sc.ctx, &built.statement, &q, tari_bulletproofs_plus::range_proof::VerifyAction::RecoverAndVerify);
                 let r0 = verify_one::<G>(&sc.ctx, &built.statement, &proof, tari_bulletproofs_plus::range_proof::VerifyAction::RecoverAndVerify);
                 st.probe("byte_round_trip_verified");
+                // the serde form (through bincode) carries the same bytes and decodes to the same proof;
+                // the announced extension degree is the statement's
+                let via_serde = G::serde_out(&proof).and_then(|b| G::serde_in(&b));
+                let ext_ok = matches!(G::ext_from_bytes(&bytes), Ok(e) if e == cfg.ext) && G::ext_of(&proof) == cfg.ext;
+                match via_serde {
+                    Ok(q2) if G::to_bytes(&q2) == bytes && ext_ok => st.probe("serde_round_trip_verified"),
+                    other => {
+                        out.push(Violation::new(
+                            "honest_proof_rejected_after_byte_round_trip",
+                            key.clone(),
+                            format!("cfg={:?}: serde/bincode round trip of the prover's output: {}; announced extension degree correct: {}", cfg, other.map(|_| "decodes to different bytes".to_string()).unwrap_or_else(|e| e), ext_ok),
+                        ));
+                        return out;
+                    },
+                }
                 if render_verify(&r) != render_verify(&r0) || G::to_bytes(&q) != bytes {
                     out.push(Violation::new(
                         "honest_proof_rejected_after_byte_round_trip",
@@ -434,7 +455,7 @@ impl Check for C01 {
             "capacity_gt_m", "m_ge_8", "zero_round_proof", "bits_64", "seed_present", "promise_eq_value",
             "value_max", "value_zero", "ext_1", "ext_2", "ext_3", "ext_4", "ext_5", "ext_6", "bits_1", "bits_2",
             "bits_4", "bits_8", "bits_16", "bits_32", "rng_all_zero", "rng_all_ones", "rng_constant_byte",
-            "rng_short_period", "rng_counter", "rng_stuck_after", "rng_replay", "rng_zero_block_at", "rng_repeat_block_at", "batch_context", "byte_round_trip_verified", "failed_attempt_on_the_same_transcript_first",
+            "rng_short_period", "rng_counter", "rng_stuck_after", "rng_replay", "rng_zero_block_at", "rng_repeat_block_at", "batch_context", "byte_round_trip_verified", "serde_round_trip_verified", "failed_attempt_on_the_same_transcript_first",
         ];
         if tier == Tier::Thorough {
             v.push("bits_64");
